@@ -455,15 +455,16 @@ let () = register "cstack_gc" (fun args ->
   let last = match L.rev statuses with s :: _ -> s | [] -> StackSeq.SOk in
   let ts = L.map fst st in
   let refs = show_refs (Compact.stack_refs ts) and logs = show_logs (Compact.stack_logs ts) in
-  let model = show_state st last ^ "#ok|" ^ refs ^ "|" ^ logs in
+  let model = show_state st last ^ "#ok|" ^ refs ^ "|" ^ logs ^ "#cc=ok" in
   let oracle =
     if L.length args < 2 then "-" else
     match S.split_on_char '#' (L.nth args 1) with
-    | [goobs; cview] ->
+    | [goobs; cview; cc] ->
       (match S.split_on_char '^' goobs, S.split_on_char '|' cview with
        | [_; _; grefs; glogs], ["ok"; crefs; clogs] ->
          if crefs <> grefs then "bad:C reads other refs than Go from the directory Go wrote"
          else if clogs <> glogs then "bad:C reads other logs than Go from the directory Go wrote"
+         else if cc <> "cc=ok" then "bad:a compaction of the Go-written directory by a C handle changed what it holds: " ^ cc
          else "ok"
        | _, _ -> "bad:C could not read the directory Go wrote")
     | _ -> "bad:format" in
